@@ -682,30 +682,9 @@ func (a *Act) frameCheck(st *State, env *SpecEnv, pos token.Pos, ri *ssa.Return)
 		return
 	}
 	vc := a.vc
-	g := vc.g
-	pre := env.with(a.entry)
-	pre.old = a.entry
-	// allowed addresses per heap key
-	allowed := map[string][]string{}
-	anyKey := map[string]bool{}
-	for _, m := range a.con.Modifies {
-		if m.Text == "nothing" {
-			continue
-		}
-		if m.Text == "heap" {
-			return
-		}
-		func() {
-			defer func() {
-				if r := recover(); r != nil {
-					if _, ok := r.(specErr); ok {
-						return
-					}
-					panic(r)
-				}
-			}()
-			a.placeKeys(m, pre, allowed, anyKey)
-		}()
+	allowed, anyKey, whole := a.frameAllowed()
+	if whole {
+		return
 	}
 	for _, k := range sortedKeys(a.written) {
 		if strings.HasPrefix(k, "IT:") || k == "G:chancap" {
@@ -732,7 +711,44 @@ func (a *Act) frameCheck(st *State, env *SpecEnv, pos token.Pos, ri *ssa.Return)
 		}
 		vc.obligeNoAssume(name, "frame", a.props, a.pos(pos), st.guard, goal, "only locations named in modifies (or freshly allocated) change in "+k)
 	}
-	_ = g
+}
+
+type frameInfo struct {
+	allowed map[string][]string
+	anyKey  map[string]bool
+	whole   bool
+}
+
+// frameAllowed evaluates the modifies clauses in the entry state: allowed addresses per heap key.
+func (a *Act) frameAllowed() (map[string][]string, map[string]bool, bool) {
+	if a.frameMemo != nil {
+		return a.frameMemo.allowed, a.frameMemo.anyKey, a.frameMemo.whole
+	}
+	fi := &frameInfo{allowed: map[string][]string{}, anyKey: map[string]bool{}}
+	a.frameMemo = fi
+	pre := a.specEnv(a.entry)
+	pre.old = a.entry
+	for _, m := range a.con.Modifies {
+		if m.Text == "nothing" {
+			continue
+		}
+		if m.Text == "heap" {
+			fi.whole = true
+			continue
+		}
+		func() {
+			defer func() {
+				if r := recover(); r != nil {
+					if _, ok := r.(specErr); ok {
+						return
+					}
+					panic(r)
+				}
+			}()
+			a.placeKeys(m, pre, fi.allowed, fi.anyKey)
+		}()
+	}
+	return fi.allowed, fi.anyKey, fi.whole
 }
 
 // placeKeys records which heap keys/addresses a modifies clause allows.
